@@ -22,7 +22,16 @@ let () =
           | Ok_ -> Printf.printf "R %s %s OK\n" c.id n
           | Diff d -> Printf.printf "R %s %s DIFF %s\n" c.id n d
           | Viol (k, d) -> Printf.printf "V %s %s %s %s\n" c.id n k d
-          | Skip -> ()) us);
+          | Skipped w -> Printf.printf "K %s %s SKIP %s\n" c.id n w
+          | Skip -> ()) us;
+      if c.panic <> None && not c.badutf8 then
+        List.iter (fun (n, u) ->
+          if (match wanted with None -> true | Some w -> List.mem n w) then
+          match (try u c with e -> Diff ("exception " ^ Printexc.to_string e)) with
+          | Ok_ -> Printf.printf "R %s %s OK\n" c.id n
+          | Diff d -> Printf.printf "R %s %s DIFF %s\n" c.id n d
+          | Skipped w -> Printf.printf "K %s %s SKIP %s\n" c.id n w
+          | _ -> ()) !panic_units);
     close_in ic
   | _ :: cmd :: file :: _ when List.mem_assoc cmd !commands -> (List.assoc cmd !commands) file
   | _ -> prerr_endline "usage: driver check <trace> [units]"; exit 2
